@@ -226,59 +226,89 @@ def rule_impl(prog, rep):
         else:
             rep.finding("C29.IMPL", fn.name, "cell:%s:%s" % (t, s),
                         "is_valid_implementation_field_type(interface=%s, impl=%s) is `%s`; IsValidImplementationFieldType() requires `%s`" % (t, s, cls, want), fn.loc(line))
-    # Schema::is_subtype(abstract_type, maybe_subtype)
-    st = prog.fn(r"^apollo_compiler::schema::Schema::is_subtype$")
-    hb = prog.hir_body(st)
-    ms = [n for n in walk(hb["body"]) if n.get("k") == "match" and n.get("src") == "normal"]
-    if len(ms) != 2:
-        raise Undecided("Schema::is_subtype: expected an outer and an inner match over ExtendedType (found %d)" % len(ms))
-    outer, inner = ms[0], ms[1]
+    # Schema::is_subtype(abstract_type, maybe_subtype) as a decision table over (kind of the
+    # abstract type or missing, kind of the candidate or missing).  Closures given to
+    # Option::is_some_and are expanded in place (analyzer/inline.py), so the table is the same
+    # whether the function is written with combinators, let-else or nested matches.
+    st = prog.inline(prog.fn(r"^apollo_compiler::schema::Schema::is_subtype$"))
     EXT = ["Scalar", "Object", "Interface", "Union", "Enum", "InputObject"]
+    from ..flow import _strip
+
+    def lookup_role(path):
+        m = re.match(r"^call:.*::get@(\d+)(\.as:Some\.0)?$", path)
+        if not m:
+            return None
+        c = st.call_at(int(m.group(1)))
+        if c is None or len(c.args) != 2 or not re.sub(r"[&*]", "", st.sym(c.args[0])).endswith("arg1.types"):
+            return None
+        key = re.sub(r"[&*]", "", st.sym(c.args[1]))
+        role = {"arg2": "A", "arg3": "S"}.get(key)
+        return (role, bool(m.group(2))) if role else None
+
+    paths = []
+    for atoms, rb, path in enum_paths(st):
+        preds = []
+        for f in _strip(atoms):
+            names = (f[2],) if f[0] == "variant" else (tuple(f[2]) if f[0] == "variant_in" else None)
+            role = lookup_role(f[1]) if names else None
+            if role is None:
+                raise Undecided("Schema::is_subtype: unrecognised condition %s" % (f,))
+            r, payload = role
+            if payload:
+                preds.append((r, lambda v, ns=names: v in ns))
+            else:
+                preds.append((r, lambda v, ns=names: ("None" if v == "missing" else "Some") in ns))
+        val = re.sub(r"<Node<T> as Deref>::deref\(([^()]*(\([^()]*\))?[^()]*)\)", r"\1", return_value_on_path(st, path) or "")
+        val = re.sub(r"[&*]", "", val)
+        m = re.match(r"^IndexSet::contains\(IndexMap::get\(arg1\.types, (arg\d)\)\.as:Some\.0\.as:(\w+)\.0\)?\.(\w+), (arg\d)\)$", val)
+        if val == "const:false":
+            leaf = "false"
+        elif val == "const:true":
+            leaf = "true"
+        elif m:
+            leaf = "%s(%s).%s.contains(%s)" % (m.group(2), m.group(1), m.group(3), m.group(4))
+        else:
+            leaf = "?" + val[:100]
+        paths.append((preds, leaf))
+    bad_outer, bad_inner, bad_contains = {}, {}, []
+    for A in EXT + ["missing"]:
+        for S in EXT + ["missing"]:
+            env = {"A": A, "S": S}
+            leaves = set(leaf for preds, leaf in paths if all(pred(env[r]) for r, pred in preds))
+            if A == "Union":
+                want = "Union(arg2).members.contains(arg3)"
+            elif A == "Interface" and S in ("Object", "Interface"):
+                want = "%s(arg3).implements_interfaces.contains(arg2)" % S
+            else:
+                want = "false"
+            ok = leaves == {want}
+            rep.obligation(ok)
+            if ok:
+                continue
+            if A == "Interface" and S in ("Object", "Interface") and any("implements_interfaces.contains" in l for l in leaves):
+                bad_contains.append((A, S, sorted(leaves), want))
+            elif A == "Interface":
+                bad_inner.setdefault(S, (sorted(leaves), want))
+            else:
+                bad_outer.setdefault(A, (sorted(leaves), want))
     for v in EXT:
-        i = first_match(outer["arms"], lambda p: pat_matches_variant(p, v))
-        body = strip_expr(outer["arms"][i]["body"])
-        has_inner = any(n is inner for n in walk(body))
-        if body.get("k") == "lit":
-            got = "false" if body["v"] is False else "true"
-        elif has_inner:
-            got = "implements"
-        elif body.get("k") == "mcall" and body["m"] == "contains":
-            fld = strip_expr(body["recv"])
-            got = "%s.contains(%s)" % (fld.get("name"), local_of(body["args"][0]))
+        if v in bad_outer:
+            rep.finding("C29.IMPL", st.name, "subtype-outer:" + v, "is_subtype with abstract type of kind %s is `%s`, expected `%s`" % (v, bad_outer[v][0], bad_outer[v][1]), st.loc())
         else:
-            got = "other"
-        want = {"Interface": "implements", "Union": "members.contains(maybe_subtype)"}.get(v, "false")
-        ok = got == want
-        rep.obligation(ok)
-        if ok:
-            rep.instance("C29.IMPL", "is_subtype: abstract type %s -> %s" % (v, got))
-        else:
-            rep.finding("C29.IMPL", st.name, "subtype-outer:" + v, "is_subtype with abstract type of kind %s is `%s`, expected `%s`" % (v, got, want), st.loc())
+            rep.instance("C29.IMPL", "is_subtype: abstract type %s -> %s" % (v, {"Interface": "implements", "Union": "members.contains(maybe_subtype)"}.get(v, "false")))
+    if "missing" in bad_outer:
+        rep.finding("C29.IMPL", st.name, "subtype-outer:missing", "is_subtype with an undefined abstract type is `%s`, expected false" % (bad_outer["missing"][0],), st.loc())
     for v in EXT:
-        i = first_match(inner["arms"], lambda p: pat_matches_variant(p, v))
-        body = strip_expr(inner["arms"][i]["body"])
-        if body.get("k") == "ret":
-            e = strip_expr(body.get("e"))
-            got = "return false" if e.get("k") == "lit" and e["v"] is False else "return ?"
-        elif body.get("k") == "field":
-            got = body["name"]
+        if v in bad_inner:
+            rep.finding("C29.IMPL", st.name, "subtype-inner:" + v, "is_subtype for a candidate of kind %s uses `%s`, expected `%s`" % (v, bad_inner[v][0], bad_inner[v][1]), st.loc())
         else:
-            got = "other"
-        want = "implements_interfaces" if v in ("Object", "Interface") else "return false"
-        ok = got == want
-        rep.obligation(ok)
-        if ok:
-            rep.instance("C29.IMPL", "is_subtype: candidate of kind %s -> %s" % (v, got))
-        else:
-            rep.finding("C29.IMPL", st.name, "subtype-inner:" + v, "is_subtype for a candidate of kind %s uses `%s`, expected `%s`" % (v, got, want), st.loc())
-    # the inner match result is tested with .contains(abstract_type)
-    cont = [n for n in walk(hb["body"]) if n.get("k") == "mcall" and n["m"] == "contains" and any(x is inner for x in walk(n["recv"]))]
-    ok = len(cont) == 1 and local_of(cont[0]["args"][0]) == "abstract_type"
-    rep.obligation(ok)
-    if ok:
-        rep.instance("C29.IMPL", "is_subtype: implements_interfaces.contains(abstract_type)")
+            rep.instance("C29.IMPL", "is_subtype: candidate of kind %s -> %s" % (v, "implements_interfaces" if v in ("Object", "Interface") else "return false"))
+    if "missing" in bad_inner:
+        rep.finding("C29.IMPL", st.name, "subtype-inner:missing", "is_subtype for an undefined candidate is `%s`, expected false" % (bad_inner["missing"][0],), st.loc())
+    if bad_contains:
+        rep.finding("C29.IMPL", st.name, "subtype-contains", "the implements list is not tested for the abstract type's name: %s" % (bad_contains[0],), st.loc())
     else:
-        rep.finding("C29.IMPL", st.name, "subtype-contains", "the implements list is not tested for the abstract type's name", st.loc())
+        rep.instance("C29.IMPL", "is_subtype: implements_interfaces.contains(abstract_type)")
 
 
 def rule_varuse(prog, rep):
